@@ -400,6 +400,23 @@ func checkC18Tx(t *Toks) string {
 		}
 	}
 
+	// parsing the serialization from a caller-owned buffer gives a value that shares nothing with it;
+	// also with a non-empty range proof on the last output (the last field of a witness serialization)
+	if err0 == nil {
+		if x := c18BufferAll("NewTxFromBuffer", ser0); x != "" {
+			return x
+		}
+		if n := len(tx.Outputs); n > 0 {
+			v := tx.Copy()
+			v.Outputs[n-1].RangeProof = r.Bytes(1 + r.Intn(40))
+			if sv, err := v.Serialize(); err == nil {
+				if x := c18BufferAll("NewTxFromBuffer", sv); x != "" {
+					return x
+				}
+			}
+		}
+	}
+
 	// (a) read-only methods on a transaction with sentinel capacities
 	nin := len(tx.Inputs)
 	script := g.b("prevoutScript", r.Bytes(r.Intn(30)))
@@ -1026,6 +1043,9 @@ func checkC18Fn(t *Toks) string {
 		if alHexs(alGlobals()) != g0 {
 			return fail("globals", f.name)
 		}
+	}
+	if x := c18BufferSweep(r); x != "" {
+		return x
 	}
 	return "OK"
 }
